@@ -13,6 +13,57 @@ LEVEL = "model_checking"
 GEN = "CONSTANTS Sim = %s\n Big = %s\nINIT Init\nNEXT Next\nINVARIANTS Idempotent WholeIsRange Emit\nCHECK_DEADLOCK FALSE\n"
 
 
+AC_CFG = 'CONSTANTS Alphabet = {%s}\n MaxKeyLen = %d\n MaxKeys = %d\n MaxText = %d\n Sim = %s\nINIT %s\nNEXT Next\nINVARIANTS %s\nCHECK_DEADLOCK FALSE\n'
+CRIT_ALPHA = '"{", "}", "+", "-", "~", ">", "<", "="'
+
+
+def ac_level(chk, tier, exe, seed):
+    """The marker search accept/reject rest on (aho-corasick.c): AhoCorasick.tla model-checked -- every occurrence reported, in reading order; the filter sound for every key
+    set and exactly leftmost-longest for the CriticMarkup key set -- and the same cases replayed on the real trie (AhoCorasickTrace)."""
+    jobs = [("general", AC_CFG % ('"a", "b"', 3, 2 if tier == "quick" else 3, 5 if tier == "quick" else 6, "FALSE", "Init", "SearchComplete SearchOrdered FilterSound Emit")),
+            ("critic-keys", AC_CFG % (CRIT_ALPHA, 3, 11, 4 if tier == "quick" else 5, "FALSE", "InitCritic", "SearchComplete SearchOrdered FilterIsLeftmostLongest Emit")),
+            ("abc", AC_CFG % ('"a", "b", "c"', 2, 2, 4, "FALSE", "Init", "SearchComplete SearchOrdered FilterSound Emit"))]
+    with concurrent.futures.ThreadPoolExecutor(3) as ex:
+        outs = list(ex.map(lambda j: tlc.run("AhoCorasick", j[1], workers=5, timeout=1500, heap="8g"), jobs))
+    cases = []
+    for (nm, _), r in zip(jobs, outs):
+        chk.cov["states"] += r.distinct; chk.cov["transitions"] += max(r.generated, 1)
+        chk.cov["ac_mc_" + nm] = dict(cases=r.distinct, violated=r.violated)
+        if r.violated:
+            chk.report("ac-model:%s:%s" % (nm, r.violated), "AhoCorasick (%s): %s fails :: %s" % (nm, r.violated, r.cex[:1200]), dict(tlc=r.cex[:5000]))
+        cases += r.printed
+    gs = tlc.run("AhoCorasick", (AC_CFG % (CRIT_ALPHA, 3, 11, 4, "TRUE", "InitCriticSim", "FilterIsLeftmostLongest SearchComplete Emit")).replace("NEXT Next", "NEXT NextCriticSim"), workers=4,
+                 simulate=(150 if tier == "quick" else 2500), depth=6, seed=seed, timeout=600)
+    if gs.violated: chk.report("ac-model:critic-sim:" + gs.violated, "AhoCorasick (simulated CriticMarkup texts): %s fails :: %s" % (gs.violated, gs.cex[:1200]), dict(tlc=gs.cex[:5000]))
+    cases = uniq(cases + gs.printed)
+    rnd = random.Random(seed)
+    if tier == "quick" and len(cases) > 12000: cases = rnd.sample(cases, 12000)
+    if len(cases) < 2000: raise FrameworkError("AhoCorasick generated %d cases" % len(cases))
+    per = 500; segs = []
+    for i in range(0, len(cases), per):
+        segs.append(["seg\tac"] + [line("ac", sx(",".join(c["keys"])), sx(c["text"]), c["start"], c["len"]) for c in cases[i:i + per]])
+    res = run_harness(exe, segs, timeout=60)
+    trace = []
+    for i, r in enumerate(res):
+        trace.append(dict(e="reset"))
+        evs = [e for e in r["events"] if e.get("e") == "ac"]
+        for c, e in zip(cases[i * per:(i + 1) * per], evs):
+            trace.append(dict(e="ac", keys=c["keys"], text=c["text"], start=c["start"], len=c["len"], all=e["all"], sel=e["sel"]))
+        if r["status"] != "ok":
+            kd, f = san_signature(r.get("san", ""))
+            chk.report("ac:%s:%s:%s" % (r["status"], kd, f), "aho-corasick.c on a model-generated case ended the process :: %s" % r.get("san", "")[:300].replace("\n", " | "), dict(script=[x[:200] for x in segs[i][-4:]]))
+    cfgt = open(os.path.join(VERIF, "spec", "AhoCorasickTrace.cfg")).read().replace('{"a", "b"}', '{"a", "b", "c", %s}' % CRIT_ALPHA)
+    acc, rej, st, info = tlc.validate_trace("AhoCorasickTrace", cfgt, trace, independent=True, max_rejects=8, timeout=1200, parallel=12)
+    chk.add("traces_validated_against_impl", len(cases) - len(rej))
+    chk.cov["ac_cases_replayed"] = len(cases)
+    seen = set()
+    for seg, idx in rej:
+        ev = seg[idx]; key = "ac:search-or-filter-differs"
+        if key in seen: continue
+        seen.add(key)
+        chk.report(key, "keys %s on text %r [%d,+%d): the real trie reports %s and selects %s, which is not what AhoCorasick prescribes" % (ev["keys"], ev["text"], ev["start"], ev["len"], ev["all"], ev["sel"]), dict(ev=ev))
+
+
 def run(tier, seed):
     chk = Check("C12", LEVEL, tier, seed)
     rnd = random.Random(seed)
@@ -33,6 +84,7 @@ def run(tier, seed):
     if gd.violated or len(gd.printed) < 10: raise FrameworkError("Critic(deep): %s, %d scripts" % (gd.violated, len(gd.printed)))
     scripts = uniq(scripts + gd.printed, key=lambda s: s["src"])
     exe = build.build_harness("asan")
+    ac_level(chk, tier, exe, seed)
     cases = []
     for s in scripts:
         n = len(s["sc"])
